@@ -85,6 +85,22 @@ This is to be used in custom allocators."#,
         ));
     }
 
+    // Same for the alignment: offsets have been computed from the recorded alignment, a type
+    // substitution (or stale cross-compilation type information) with a different alignment
+    // would lead to misaligned data.
+    let type_align_assertions = definition
+        .variants()
+        .flat_map(|variant| variant.data())
+        .map(|datum_id| &definition[datum_id])
+        .map(|datum| (datum.details().type_name(), datum.details().type_align()))
+        .collect::<BTreeSet<_>>();
+    for (type_name, align) in type_align_assertions {
+        scope.raw(format!(
+            "const_assert_eq!(std::mem::align_of::<{}>(), {});",
+            type_name, align
+        ));
+    }
+
     scope.to_string()
 }
 
